@@ -335,6 +335,7 @@ def run(chk):
     _register_rule(chk, prog)
     _sideowner_rule(chk, prog)
     _markevent_rule(chk, prog)
+    _regdir_rule(chk, prog)
 
 
 def _solewaiter_rule(chk, prog):
@@ -630,3 +631,72 @@ def _markevent_rule(chk, prog):
                           "the fiber from inside the mark phase" % (fn.name, "(handled by the default arm)" if "MARK" not in start[0].label.text() else "",
                                                                    hit.text()[:50]))
     chk.floor(rule, 5, n)
+
+
+def _flagnames(e):
+    return set(m for y in e.walk() for m in y.macro_names() if m.startswith("JANET_STREAM_"))
+
+
+def _regdir_rule(chk, prog):
+    """A stream is registered with the poller once, for the directions its flags promise (readable / acceptable ->
+    input events, writable -> output events).  An operation waits for an event of its direction whenever the system
+    call would block.  So every kind of stream an operation accepts must have been registered for that operation's
+    direction - otherwise the first EAGAIN parks the fiber for an event that is never delivered."""
+    rule = "C16-REGDIR"
+    chk.rule(rule, "every kind of socket stream an operation accepts was registered with the poller for that operation's direction")
+    reg = None
+    for f in prog.tus["ev.c"].funcs.values():
+        if f.name == "janet_register_stream_impl":
+            reg = f
+    if reg is None:
+        raise AnalysisBroken("janet_register_stream_impl not found")
+    chk.analysed(reg)
+    masks = {}
+    for x in reg.nodes:
+        if x.k == "if":
+            body_macros = set(m for y in x.kids[1].walk() for m in y.macro_names())
+            cond = _flagnames(x.kids[0])
+            for ev, d in (("EPOLLOUT", "write"), ("EPOLLIN", "read"), ("EVFILT_WRITE", "write"), ("EVFILT_READ", "read")):
+                if ev in body_macros and cond:
+                    masks[d] = cond
+    if set(masks) != {"read", "write"}:
+        chk.note("C16-REGDIR: the poller of this configuration registers every stream for both directions; nothing to decide")
+        chk.floor(rule, 0, 0)
+        return
+    net = prog.tus["net.c"]
+    creations = []
+    for f in net.funcs.values():
+        for c in f.calls("make_stream"):
+            names = _flagnames(c.args[1])
+            if names:
+                creations.append((f, c, names | {"JANET_STREAM_SOCKET"}))
+    WRITE = ("janet_ev_write_buffer", "janet_ev_write_string", "janet_ev_send_buffer", "janet_ev_send_string", "janet_ev_sendto_buffer", "janet_ev_sendto_string")
+    READ = ("janet_ev_read", "janet_ev_readchunk", "janet_ev_recv", "janet_ev_recvchunk", "janet_ev_recvfrom", "janet_sched_accept")
+    ops = []
+    for f in net.funcs.values():
+        chk_calls = f.calls("janet_stream_flags")
+        if not chk_calls:
+            continue
+        need = _flagnames(chk_calls[0].args[1])
+        d = "write" if f.calls(*WRITE) else "read" if f.calls(*READ) else None
+        if d:
+            ops.append((f, need, d))
+    if len(creations) < 4 or len(ops) < 6:
+        raise AnalysisBroken("net.c: %d stream creations, %d operations recognised" % (len(creations), len(ops)))
+    n = 0
+    for (cf, c, have) in creations:
+        for (of, need, d) in ops:
+            if not need <= have:
+                continue
+            n += 1
+            chk.instance(rule)
+            if have & masks[d]:
+                chk.ok(rule, "%s on a stream made with %s: registered for %s events" % (of.name, sorted(have), d))
+            else:
+                chk.violation(rule, "net.c", of.name, "%s:%s" % (d, "+".join(sorted(x.replace("JANET_STREAM_", "") for x in have))), c.loc,
+                              "%s accepts the stream created at %s (flags %s) and waits for %s events when the call would block, but "
+                              "janet_register_stream_impl asks the poller for %s events only for streams with %s: the fiber is parked "
+                              "for an event that never comes (net/send-to on a datagram listener hangs once the peer's queue is full)" % (
+                                  of.name, c.loc, sorted(x.replace("JANET_STREAM_", "") for x in have), d, d,
+                                  sorted(x.replace("JANET_STREAM_", "") for x in masks[d])))
+    chk.floor(rule, 8, n)
